@@ -221,6 +221,41 @@ def handle (line : String) : String :=
     match parseXNames n with
     | some [n] => (match ianaNow n with | some e => s!"ok {asciiOfName e}" | none => "ok none")
     | _ => "bad-op"
+  | ["sort", n, bits] =>
+    -- n elements 0..n-1, `bits` = row-major 0/1 matrix of is_less(i, j)
+    match n.toNat? with
+    | some n =>
+      let m := bits.toList.toArray
+      let lt : Nat → Nat → Bool := fun i j => m[i * n + j]? == some '1'
+      "ok " ++ " ".intercalate ((sortUnstable lt (List.range n)).map toString)
+    | none => "bad-op"
+  | ["cmp", ca, ha, ta, la, cb, hb, tb, lb] =>
+    match f32OfBits ca, f32OfBits ha, ta.toNat?, la.toNat?, f32OfBits cb, f32OfBits hb, tb.toNat?, lb.toNat? with
+    | some ca, some ha, some ta, some la, some cb, some hb, some tb, some lb =>
+      let mk (c h : F32) (t l : Nat) : Match Name Name :=
+        ⟨List.replicate l 0, [], c, (if h.key = 0 then [] else [([], h)]), false, [], some (List.replicate t 97)⟩
+      let r := Match.cmp (mk ca ha ta la) (mk cb hb tb lb)
+      s!"ok {match r with | .lt => "lt" | .eq => "eq" | .gt => "gt"}"
+    | _, _, _, _, _, _, _, _ => "bad-op"
+  | "container" :: tooBig :: nfirst :: items =>
+    -- items: enc|chaosbits|cohbits|text-hex|rawlen ; the first `nfirst` go through `new`, the rest through `append`
+    match tooBig.toNat?, nfirst.toNat? with
+    | some tooBig, some nfirst =>
+      let parse (it : String) : Option (Match Name Name) :=
+        match it.splitOn "|" with
+        | [e, c, h, t, l] =>
+          match f32OfBits c, f32OfBits h, textOfHex t, l.toNat? with
+          | some c, some h, some t, some l =>
+            some ⟨List.replicate l 0, nameOfAscii e, c, (if h.key = 0 then [] else [(nameOfAscii "English", h)]), false, [], some t⟩
+          | _, _, _, _ => none
+        | _ => none
+      match items.mapM parse with
+      | none => "bad-op"
+      | some ms =>
+        let c0 := newContainer sorter (ms.take nfirst)
+        let c := (ms.drop nfirst).foldl (fun acc m => append sorter tooBig acc m) c0
+        "ok " ++ " ".intercalate (c.map (fun m => asciiOfName m.enc ++ "[" ++ ",".intercalate (m.subs.map (fun s => asciiOfName s.enc)) ++ "]"))
+    | _, _ => "bad-op"
   | ["codecid", n] =>
     match parseXNames n with
     | some [n] => (match lookupName Gen.labelCodec (normLabel n) with
